@@ -13,14 +13,15 @@ import (
 // Solver is one long-lived solver process spoken to in SMT-LIB2.
 // Usage per path: Begin(); Assert*/Check*; End().
 type Solver struct {
-	cmd     *exec.Cmd
-	in      io.WriteCloser
-	out     *bufio.Reader
-	args    []string
-	defined map[*Term]bool
-	buf     strings.Builder
+	cmd      *exec.Cmd
+	in       io.WriteCloser
+	out      *bufio.Reader
+	args     []string
+	gen      int
+	pending  []*Term
+	buf      strings.Builder
 	sentPush bool
-	Log     io.Writer // optional query log (for cross-checking with other solvers)
+	Log      io.Writer // optional query log (for cross-checking with other solvers)
 
 	Queries, Sat, Unsat, Unknown int
 	Time                         time.Duration
@@ -30,7 +31,7 @@ type Solver struct {
 
 func NewSolver(args ...string) (*Solver, error) {
 	if len(args) == 0 {
-		args = []string{"z3", "-in"}
+		args = []string{"z3-new", "-in"}
 	}
 	s := &Solver{args: args}
 	if err := s.start(); err != nil {
@@ -84,7 +85,8 @@ func (s *Solver) Begin() {
 			panic(err)
 		}
 	}
-	s.defined = map[*Term]bool{}
+	s.gen++
+	s.pending = s.pending[:0]
 	s.buf.Reset()
 	s.sentPush = false
 	s.buf.WriteString("(push 1)\n")
@@ -129,10 +131,10 @@ func (s *Solver) ref(t *Term) string {
 	if t.Op == OpBVVar || t.Op == OpBoolVar {
 		name = t.Name
 	}
-	if s.defined[t] {
+	if t.defGen == s.gen {
 		return name
 	}
-	s.defined[t] = true
+	t.defGen = s.gen
 	switch t.Op {
 	case OpBVVar, OpBoolVar:
 		fmt.Fprintf(&s.buf, "(declare-const %s %s)\n", name, sortOf(t))
@@ -164,8 +166,7 @@ func (s *Solver) Assert(t *Term) {
 	if t.Op == OpTrue {
 		return
 	}
-	r := s.ref(t)
-	s.buf.WriteString("(assert " + r + ")\n")
+	s.pending = append(s.pending, t)
 }
 
 type Result int
@@ -183,6 +184,11 @@ func (s *Solver) Check(vars []*Term, extra ...*Term) (Result, map[string]uint64)
 	t0 := time.Now()
 	defer func() { s.Time += time.Since(t0) }()
 	s.Queries++
+	for _, t := range s.pending {
+		r := s.ref(t)
+		s.buf.WriteString("(assert " + r + ")\n")
+	}
+	s.pending = s.pending[:0]
 	refs := make([]string, len(extra))
 	for i, e := range extra {
 		refs[i] = s.ref(e)
@@ -194,49 +200,47 @@ func (s *Solver) Check(vars []*Term, extra ...*Term) (Result, map[string]uint64)
 	for _, r := range refs {
 		s.buf.WriteString("(assert " + r + ")\n")
 	}
-	s.buf.WriteString("(check-sat)\n(echo " + sentinel + ")\n")
+	s.buf.WriteString("(check-sat)\n")
+	if len(vars) > 0 {
+		s.buf.WriteString("(get-value (")
+		for _, v := range vars {
+			s.buf.WriteString(v.Name + " ")
+		}
+		s.buf.WriteString("))\n")
+	}
+	s.buf.WriteString("(echo " + sentinel + ")\n(pop 1)\n")
 	s.sentPush = true
 	s.send(s.buf.String())
 	s.buf.Reset()
 	lines := s.readUntilSentinel()
 	res := UnknownRes
-	for _, l := range lines {
-		switch {
-		case l == "sat":
-			res = Sat
-		case l == "unsat":
-			res = Unsat
-		case strings.HasPrefix(l, "(error"):
-			s.Errors = append(s.Errors, l)
-			res = UnknownRes
+	rest := ""
+	for i, l := range lines {
+		if l == "sat" || l == "unsat" || l == "unknown" {
+			switch l {
+			case "sat":
+				res = Sat
+			case "unsat":
+				res = Unsat
+			}
+			rest = strings.Join(lines[i+1:], " ")
+			break
 		}
-	}
-	for _, l := range lines {
 		if strings.HasPrefix(l, "(error") {
-			res = UnknownRes
+			s.Errors = append(s.Errors, l)
+			break
 		}
 	}
 	var model map[string]uint64
 	if res == Sat {
 		model = map[string]uint64{}
-		if len(vars) > 0 {
-			var b strings.Builder
-			b.WriteString("(get-value (")
-			for _, v := range vars {
-				b.WriteString(v.Name + " ")
-			}
-			b.WriteString("))\n(echo " + sentinel + ")\n")
-			s.send(b.String())
-			txt := strings.Join(s.readUntilSentinel(), " ")
-			if strings.Contains(txt, "(error") {
-				s.Errors = append(s.Errors, txt)
-				res = UnknownRes
-			} else {
-				parseModel(txt, model)
-			}
+		if strings.Contains(rest, "(error") {
+			s.Errors = append(s.Errors, rest)
+			res = UnknownRes
+		} else {
+			parseModel(rest, model)
 		}
 	}
-	s.send("(pop 1)\n")
 	switch res {
 	case Sat:
 		s.Sat++
